@@ -169,6 +169,9 @@ func TestVerifC07Verify(t *testing.T) {
 		return
 	}
 	r := vh.NewRng(vh.Seed() + 71)
+	for _, c := range vdmarc.Corpus() {
+		c07Verify(out, c, seedOK)
+	}
 	n := vh.N(20000)
 	for i := 0; i < n; i++ {
 		c07Verify(out, vdmarc.Random(r), seedOK)
